@@ -205,6 +205,8 @@ type Exec struct {
 	tier       string
 	trackGlobals bool
 	prop       string
+	stubs      map[string]Value
+	ptrInts    map[string]*Term
 	facts      map[string]*Term
 	factOrder  []string
 }
@@ -333,6 +335,8 @@ func (e *Exec) resetPath(prefix []Decision) {
 	e.globalCells = nil
 	e.pathFuncs = map[string]int{}
 	e.lastPanic = nil
+	e.stubs = map[string]Value{}
+	e.ptrInts = map[string]*Term{}
 	e.facts = map[string]*Term{}
 	e.factOrder = nil
 	e.notes = nil
